@@ -12,6 +12,7 @@ _hc._MAXLINE = 1 << 26
 _hc._MAXHEADERS = 1 << 20
 
 # ---------------------------------------------------------------------------------------------- grammar
+# NOTE: the lists below are APPEND-ONLY: specs (and committed replays of the generated kind) refer to entries by index.
 
 METHODS = ['GET', 'GET', 'GET', 'POST', 'POST', 'PUT', 'DELETE']          # no HEAD: HEAD framing is C15's business
 TARGETS = ['/', '/', '/echo', '/echo?x=1&y=two', '/echo/a/b', '/missing', '/a/b/c?q=%41', '/echo?1,2',
